@@ -24,7 +24,8 @@ Theorems (over Model/ListOffsets.lean and Model/Seek.lean):
     mapping_exact_offsetFetch      coordinator state → OffsetFetch answer → user response = the state, per requested partition
     mapping_exact_offsetCommit_request / _response   every user commit reaches the wire unchanged; per-partition errors come back
     mapping_exact_consumerOffsets  partition → committed offset of the coordinator
-    mapping_exact_metadata         leader / replicas / ISR of every partition resolve to the listed brokers; order and fields kept
+    mapping_exact_metadata         every leader / replica / ISR id of the answer is reported as that id (listed or not: C19-D30 fixed);
+                                   listed ids resolve to exactly that broker; order and fields kept
     mapping_exact_readPartitions   same for Conn.ReadPartitions (placeholder brokers for unlisted ids)
     readPartitions_error_scope / readPartitionsTopics_spec   ReadPartitions: which topics are asked for; a topic error ends the call only when it
                           concerns the connection, otherwise every partition of every answered topic is reported
@@ -543,19 +544,45 @@ theorem brokerMap_id (bs : List MBroker) (id : Int) (b : UBroker) (h : (brokerMa
   obtain ⟨x, _, rfl⟩ := List.mem_map.mp he
   rfl
 
+theorem brokerOrPlaceholder_id (bs : List MBroker) (id : Int) : (brokerOrPlaceholder (brokerMap bs) id).id = id := by
+  simp only [brokerOrPlaceholder]
+  cases h : (brokerMap bs).lookup id with
+  | none => rfl
+  | some b => exact brokerMap_id bs id b h
+
+theorem makeBrokers_ids (bs : List MBroker) (ids : List Int) : (makeBrokers (brokerMap bs) ids).map (·.id) = ids := by
+  simp only [makeBrokers, List.map_map]
+  conv => rhs; rw [← List.map_id ids]
+  apply List.map_congr_left
+  intro k _
+  simp only [Function.comp, id]
+  cases h : (brokerMap bs).lookup k with
+  | none => rfl
+  | some b => exact brokerMap_id bs k b h
+
 /-- **Metadata**: brokers, topics and partitions are reported in the answer's order with their name, internal
-flag, error code and partition id unchanged, and the leader of every partition whose leader id is listed is
-reported as exactly that broker (id, host, port, rack). -/
-theorem mapping_exact_metadata (res : MResponse) (hnd : (res.brokers.map (·.nodeID)).Nodup) :
+flag, error code and partition id unchanged; **every leader, replica and ISR id of the answer is reported as that
+id** — whether or not the id is in the answer's broker list (replicas on offline brokers, no leader: after fix
+C19-D30) — and an id that is listed is reported as exactly that broker (id, host, port, rack). -/
+theorem mapping_exact_metadata (res : MResponse) :
     (clientMetadata res).brokers = res.brokers.map convBroker ∧
-    (clientMetadata res).topics.map (fun t => (t.name, t.internal, t.error, t.partitions.map fun p => (p.id, p.error)))
-      = res.topics.map (fun t => (t.name, t.internal, t.error, t.partitions.map fun p => (p.index, p.error))) ∧
-    (∀ t ∈ res.topics, ∀ p ∈ t.partitions, ∀ b ∈ res.brokers, b.nodeID = p.leader →
-      lookupD (brokerMap res.brokers) p.leader UBroker.zero = convBroker b) := by
+    (clientMetadata res).topics.map (fun t => (t.name, t.internal, t.error, t.partitions.map fun p =>
+        (p.id, p.error, p.leader.id, p.replicas.map (·.id), p.isr.map (·.id))))
+      = res.topics.map (fun t => (t.name, t.internal, t.error, t.partitions.map fun p =>
+        (p.index, p.error, p.leader, p.replicas, p.isr))) ∧
+    ((res.brokers.map (·.nodeID)).Nodup → ∀ t ∈ res.topics, ∀ p ∈ t.partitions, ∀ b ∈ res.brokers, b.nodeID = p.leader →
+      brokerOrPlaceholder (brokerMap res.brokers) p.leader = convBroker b) := by
   refine ⟨rfl, ?_, ?_⟩
-  · simp [clientMetadata, List.map_map, Function.comp]
-  · intro t _ p _ b hb hid
-    simp [lookupD, ← hid, brokerMap_lookup res.brokers hnd b hb]
+  · simp only [clientMetadata, List.map_map]
+    apply List.map_congr_left
+    intro t _
+    simp only [Function.comp, List.map_map]
+    congr 3
+    apply List.map_congr_left
+    intro p _
+    simp [Function.comp, brokerOrPlaceholder_id, makeBrokers_ids]
+  · intro hnd t _ p _ b hb hid
+    simp [brokerOrPlaceholder, ← hid, brokerMap_lookup res.brokers hnd b hb]
 
 /-- **ReadPartitions** resolves replicas / ISR through the same map; an id without a listed broker is reported as
 a placeholder carrying that id (never as another broker) -/
